@@ -116,10 +116,10 @@ Section P.
     - destruct (strings_good dst l) as [E G]. destruct (strings_good [] l) as [E0 _]. rewrite E, E0. cbn [app]. auto.
     - (* PStringer *)
       rewrite !AppendStringer_shape. cbn [app]. split; auto.
-      apply (stringer_good [] o (s_nil_iface st)).
-      destruct o as [s|]; cbn; [reflexivity|]. apply iface_jv_ok; auto.
+      apply (stringer_good [] o nil_stringer_iface).
+      destruct o as [s|]; cbn; [reflexivity|]. exact (proj2 (nil_good [])).
     - (* PStringers *)
-      assert (H' : In None l -> iface_denotes (s_nil_iface st) (nil_jv st)) by (intros I; apply iface_jv_ok; auto).
+      assert (H' : In None l -> iface_denotes nil_stringer_iface JNull) by (intros I; exact (proj2 (nil_good []))).
       destruct (stringers_good dst l _ _ H') as [E G]. destruct (stringers_good [] l _ _ H') as [E0 _].
       rewrite E, E0. cbn [app]. auto.
     - destruct (bool_good dst b) as [E G]. destruct (bool_good [] b) as [E0 _]. rewrite E, E0. cbn [app]. auto.
